@@ -246,12 +246,12 @@ func SolveAll(all []*Obligation, solv *Solvers) {
 }
 
 type AggObl struct {
-	Name    string  `json:"name"`
-	Status  string  `json:"status"` // discharged / failed / undecided / vacuous
-	Queries int     `json:"queries"`
-	Seconds float64 `json:"seconds"`
-	Detail  string  `json:"detail,omitempty"`
-	Solvers string  `json:"solvers,omitempty"`
+	Name    string      `json:"name"`
+	Status  string      `json:"status"` // discharged / failed / undecided / vacuous
+	Queries int         `json:"queries"`
+	Seconds float64     `json:"seconds"`
+	Detail  string      `json:"detail,omitempty"`
+	Solvers string      `json:"solvers,omitempty"`
 	Failing *Obligation `json:"-"`
 }
 
@@ -301,7 +301,6 @@ func aggregate(obls []*Obligation) []*AggObl {
 	}
 	return out
 }
-
 
 // cmdReplay re-verifies the function named in a replay file and, if the obligation still fails,
 // re-runs the counterexample against the real code.
